@@ -6,8 +6,8 @@ CONSTANTS
   SlotType <- MCSlotType3
   MaxExplicit = 1
   Policy <- PolicyAny
-  MemberTypes <- MembersNone
-  MaxBirths = 2
+  MemberTypes <- MembersDerived
+  MaxBirths = 1
 INVARIANTS TypeOK Conservation AliveIffReferenced NoDangling StaticTypes DestroyedExactlyOnce
 PROPERTIES DiesAtLastRelease EqualIffSameObject StepRecord
 CONSTRAINT BirthBound
